@@ -15,6 +15,8 @@ import gzip
 import io
 import math
 import os
+import time
+import traceback
 
 from .common import Collector, TmpDir, to_py
 from .refmodels import c01_files as ref
@@ -123,23 +125,28 @@ class FileCase:
         self.max_entry = max([len(e) for e in self.ebytes] + [0])
         self.tail = len(self.ebytes[-1]) if self.ebytes else 0
 
-    def chunk_sizes(self, tier, all_sizes):
+    def chunk_sizes(self, level):
+        """"all": 1..size+2; "near": 1..4, divisors and -1/+1/+2 neighbours of every size/offset in the file;
+        "tight": the same with fewer divisors and fewer offsets"""
         n = len(self.data)
-        if all_sizes:
+        if level == "all":
             return list(range(1, n + 3))
-        ks = {1, 2, 3, 4}
+        tight = level == "tight"
+        ks = {1, 2, 3} if tight else {1, 2, 3, 4}
         bounds = [0]
         for e in self.ebytes:
             bounds.append(bounds[-1] + len(e))
         interesting = set(bounds) | {len(e) for e in self.ebytes} | {n, self.body_size, self.tail, self.body}
-        interesting |= {self.body + b for b in bounds} | {self.body_size - b for b in bounds}
+        if not tight:
+            interesting |= {self.body + b for b in bounds} | {self.body_size - b for b in bounds}
         for v in interesting:
             if v <= 0:
                 continue
             for d in range(1, v + 1):
-                if v % d == 0 and (d <= 8 or v // d <= 3):
+                if v % d == 0 and ((d <= 5 or v // d <= 2) if tight else (d <= 8 or v // d <= 3)):
                     ks.add(d)
-            ks |= {v - 1, v + 1, v + 2}
+            ks |= {v - 1, v + 1} if tight else {v - 1, v + 1, v + 2}
+        ks.add(n + 2)
         return sorted(k for k in ks if 1 <= k <= n + 2)
 
     def pending_tail_aligned(self, comp, k):
@@ -165,26 +172,27 @@ class FileCase:
 
 
 def check_whole(col, fc, src, comp, lazy, via):
-    """contract whole-read; returns the entries read() gave (None when it failed)"""
+    """contract whole-read; returns (entries read() gave or None, name of the exception read() raised or None)"""
     case = fc.case(comp, lazy, via)
     col.case({"k": "read", **case}, nontrivial=bool(fc.refs), contract="whole-read")
-
-    def do():
+    try:
         r = open_reader(src, fc.spec, comp, lazy, via)
         try:
-            return entries_of(r.read(), fc.spec)
+            got = entries_of(r.read(), fc.spec)
         finally:
             r.close()
-    got = col.guarded(do, "whole-read:" + fc.sig_tail(comp), case)
-    if got is None:
-        return None
+    except Exception as e:
+        # one signature per (format, line end): the whole region (every chunk size, plain and gzip) fails alike
+        col.fail("whole-read:exception:%s:%s%s" % (type(e).__name__, fc.fmt, ":crlf" if fc.crlf else ""), case,
+                 "read() raised %s: %s\n%s" % (type(e).__name__, str(e)[:150], traceback.format_exc()[-350:]))
+        return None, type(e).__name__
     if not same_entries(got, fc.refs, fc.spec):
         col.fail("whole-read:%s:%s" % (classify(got, fc.refs, fc.spec), fc.sig_tail(comp)), case,
                  "read() gave %r, the file holds %r" % (got[:5], fc.refs[:5]))
-    return got
+    return got, None
 
 
-def check_chunks(col, fc, src, comp, lazy, via, k, whole):
+def check_chunks(col, fc, src, comp, lazy, via, k, whole, whole_exc=None):
     case = fc.case(comp, lazy, via, k)
     col.case({"k": "chunks", **case}, nontrivial=len(fc.refs) > 0, contract="read_chunks")
     try:
@@ -197,6 +205,8 @@ def check_chunks(col, fc, src, comp, lazy, via, k, whole):
         # "A chunk size too small to hold one entry may raise an error": accepted only then
         if k < fc.max_entry + 2:
             return "raised-small-chunk"
+        if type(e).__name__ == whole_exc:
+            return "raised-like-read"           # already reported once by whole-read
         col.fail("read_chunks:exception-with-sufficient-chunk-size:%s:%s" % (type(e).__name__, fc.sig_tail(comp)), case,
                  "%s: %s (longest entry %d bytes, min_chunk_size %d)" % (type(e).__name__, str(e)[:200], fc.max_entry, k))
         return "raised"
@@ -210,16 +220,15 @@ def check_chunks(col, fc, src, comp, lazy, via, k, whole):
             sig = "read_chunks:lost-tail:unterminated-last-entry-ends-on-chunk-multiple:%s" % ("plain" if comp == "plain" else "gzip")
         else:
             sig = "read_chunks:%s:%s" % (kind, fc.sig_tail(comp))
-        col.fail(sig, case, "chunks %r concatenate to %d entries %r; read() gives %d entries %r" %
-                 ([len(c) for c in per_chunk], len(got), got[:5], len(exp), exp[:5]))
+        col.fail(sig, case, "chunks %r concatenate to %d entries, the last ones %r; read() gives %d entries, the last ones %r" %
+                 ([len(c) for c in per_chunk], len(got), got[-3:], len(exp), exp[-3:]))
         return kind
     if any(len(c) == 0 for c in per_chunk):
         col.fail("read_chunks:empty-chunk-in-stream:" + fc.sig_tail(comp), case, "chunk lengths %r" % [len(c) for c in per_chunk])
     return "ok"
 
 
-def run_file(col, tmp, fc, tier, comps, lazies, vias, all_sizes):
-    ks = fc.chunk_sizes(tier, all_sizes)
+def run_file(col, tmp, fc, ks, comps, lazies, vias, deadline=None):
     for comp in comps:
         for via in vias:
             if via == "open":
@@ -230,77 +239,138 @@ def run_file(col, tmp, fc, tier, comps, lazies, vias, all_sizes):
             else:
                 src = fc.data if comp == "plain" else gz_bytes(fc.data, comp, fc.ebytes, fc.body)
             for lazy in lazies:
-                whole = check_whole(col, fc, src, comp, lazy, via)
+                whole, whole_exc = check_whole(col, fc, src, comp, lazy, via)
                 for k in ks:
-                    check_chunks(col, fc, src, comp, lazy, via, k, whole)
-        if col.out_of_time():
-            return False
+                    check_chunks(col, fc, src, comp, lazy, via, k, whole, whole_exc)
+                if deadline is not None and time.time() > deadline:
+                    return False
     return True
 
 
 # ------------------------------------------------------------------------------------------------ enumeration
-def size_tuples(tier):
-    import itertools
-    yield ()
-    maxn_full = 2 if tier == "quick" else 3
-    for n in range(1, maxn_full + 1):
-        for t in itertools.product(SIZES, repeat=n):
-            yield t
-    if tier == "quick":
-        for t in [(1, 1, 1), (5, 2, 1), (1, 2, 5), (2, 5, 2), (2, 2, 2, 2), (1, 5, 1, 2)]:
-            yield t
-    else:
-        for t in [(1, 1, 1, 1), (2, 2, 2, 2), (5, 5, 5, 5), (1, 2, 5, 1), (5, 2, 1, 2), (1, 5, 1, 5), (2, 1, 1, 5),
-                  (5, 1, 2, 2), (1, 1, 5, 2), (2, 5, 5, 1)]:
-            yield t
+N4_QUICK = [(2, 2, 2, 2)]
+N3_QUICK = [(1, 1, 1), (5, 2, 1), (2, 5, 2)]      # besides (1, 2, 5)
+N4_THOROUGH = [(1, 1, 1, 1), (2, 2, 2, 2), (5, 5, 5, 5), (1, 2, 5, 1), (5, 2, 1, 2), (1, 5, 1, 5), (2, 1, 1, 5),
+               (5, 1, 2, 2), (1, 1, 5, 2), (2, 5, 5, 1)]
+PAIRS_LAZY_QUICK = [(1, 2), (5, 2)]
+PAIRS_CRLF_QUICK = [(1, 2), (5, 1), (2, 5)]
+N3_ALLK = [(1, 1, 1), (1, 2, 5), (5, 2, 1), (2, 5, 2), (5, 5, 1), (2, 1, 5)]
 
 
 def plan(tier):
-    """yield (fmt, sizes, final_newline, crlf, comps, lazies, vias, all_chunk_sizes)"""
+    """yield tasks (fmt, sizes, final_newline, crlf, comps, lazies, vias, ks) with ks = "all" | "near" | explicit list.
+    Ordered by growing file size so that a run that hits the time budget has covered every format on the small files."""
+    import itertools
     fmts = list(ref.FORMATS)
-    for sizes in size_tuples(tier):
-        for fmt in fmts:
-            for final_newline in (True, False):
-                if not sizes and not final_newline and not ref.FORMATS[fmt].header:
-                    continue
-                for crlf in (False, True):
-                    if tier == "quick":
-                        # quick: the neighbourhood chunk sizes; eager+lazy on LF files, eager only on CRLF
-                        yield fmt, sizes, final_newline, crlf, ("plain", "gzip"), ((False, True) if not crlf else (False,)), ("open",), False
-                    else:
-                        yield fmt, sizes, final_newline, crlf, ("plain", "gzip"), (False, True), ("open",), len(sizes) <= 3
-    # the low-level route (file objects) and multi-member gzip on a smaller family
-    extra = [(2, 5), (1, 2, 5), (5, 1)] if tier == "quick" else [(1,), (5,), (2, 5), (5, 2), (1, 2, 5), (5, 1, 2), (2, 2, 1, 5)]
-    for sizes in extra:
-        for fmt in fmts:
-            for final_newline in (True, False):
-                for crlf in ((False,) if tier == "quick" else (False, True)):
-                    yield fmt, sizes, final_newline, crlf, ("plain", "gzip"), (None,), ("fileobj",), tier != "quick"
-                    yield fmt, sizes, final_newline, crlf, ("gzipm",), (False,), ("open",), tier != "quick"
+    both = ("plain", "gzip")
+
+    def files(tuples, crlfs=(False, True)):
+        for sizes in tuples:
+            for fmt in fmts:
+                for fnl in (True, False):
+                    if not sizes and not fnl:
+                        continue
+                    for crlf in crlfs:
+                        yield fmt, tuple(sizes), fnl, crlf
+
+    singles = list(itertools.product(SIZES, repeat=1))
+    pairs = list(itertools.product(SIZES, repeat=2))
+    triples = list(itertools.product(SIZES, repeat=3))
+    E, EL = (False,), (False, True)          # eager only / eager and lazy
+    lf, cr = (False,), (True,)
+    if tier == "quick":
+        # every axis early, most discriminating files first: the budget may cut the end of the list on a loaded machine
+        for f in files([(1, 2, 5)], lf):
+            yield f + (both, EL, ("open",), "tight")
+        for f in files([(1, 2, 5)], cr):
+            yield f + (both, E, ("open",), "tight")
+        for f in files([(1, 2, 5)], lf):
+            yield f + (both, (None,), ("fileobj",), "tight")
+            yield f + (("gzipm",), (False,), ("open",), "tight")
+        for f in files(PAIRS_LAZY_QUICK, lf):
+            yield f + (both, EL, ("open",), "tight")
+        for f in files([(2,)] + PAIRS_CRLF_QUICK, cr):
+            yield f + (both, E, ("open",), "tight")
+        for f in files([()] + singles, lf):
+            yield f + (both, EL if len(f[1]) == 0 or f[1] == (2,) else E, ("open",), "tight")
+        for f in files([t for t in pairs if t not in PAIRS_LAZY_QUICK], lf):
+            yield f + (both, E, ("open",), "tight")
+        for f in files(N3_QUICK + N4_QUICK, lf):
+            yield f + (both, E, ("open",), "tight")
+        extra, extra_cr = [], []
+    else:
+        for f in files([()] + singles, lf):
+            yield f + (both, EL, ("open",), "all")
+        for f in files([()] + singles, cr):
+            yield f + (both, EL, ("open",), "near")
+        for f in files(pairs, lf):
+            yield f + (both, EL, ("open",), "all")
+        for f in files(pairs, cr):
+            yield f + (both, E if sum(f[1]) % 2 else EL, ("open",), "near")
+        for f in files(triples, lf):
+            yield f + (both, EL, ("open",), "all" if f[1] in N3_ALLK else "near")
+        for f in files([t for t in triples if (t[0] + 2 * t[1] + t[2]) % 2 == 0], cr):
+            yield f + (both, E, ("open",), "near")
+        for f in files(N4_THOROUGH, lf):
+            yield f + (both, EL if f[1] in N4_THOROUGH[:6] else E, ("open",), "near")
+        for f in files(N4_THOROUGH[3:8], cr):
+            yield f + (both, E, ("open",), "near")
+        extra, extra_cr = [(1,), (5,), (2, 5), (1, 2, 5), (5, 1, 2), (2, 2, 1, 5)], [(2, 5), (1, 2, 5), (5, 1, 2)]
+    # the low-level route (file objects, lazy left at its default) and multi-member gzip on a smaller family
+    for f in list(files(extra, lf)) + list(files(extra_cr, cr)):
+        lvl = "tight" if tier == "quick" else ("near" if f[3] else "all")
+        yield f + (both, (None,), ("fileobj",), lvl)
+        yield f + (("gzipm",), (False,), ("open",), lvl)
 
 
-def sampled_larger(col, tmp, tier):
-    """above the exhaustive bounds: seeded larger files (5..12 entries, size classes drawn at random), a seeded
-    sample of chunk sizes"""
+def sampled_tasks(rng, tier):
+    """above the exhaustive bounds: seeded larger files (5..12 entries, size classes drawn at random) with a seeded
+    sample of chunk sizes plus the divisors of file / body / last-entry size"""
     fmts = list(ref.FORMATS)
-    n_files = 12 if tier == "quick" else 60
+    n_files = 16 if tier == "quick" else 96
     for j in range(n_files):
-        fmt = fmts[j % len(fmts)] if j < len(fmts) else col.rng.choice(fmts)
-        sizes = tuple(col.rng.choice(SIZES) for _ in range(col.rng.randint(5, 12)))
-        fc = FileCase(fmt, sizes, col.rng.random() < 0.5, col.rng.random() < 0.3)
+        fmt = fmts[j % len(fmts)]
+        sizes = tuple(rng.choice(SIZES) for _ in range(rng.randint(5, 12)))
+        fnl, crlf = rng.random() < 0.5, rng.random() < 0.3
+        fc = FileCase(fmt, sizes, fnl, crlf)
         n = len(fc.data)
-        ks = sorted(set(fc.chunk_sizes(tier, False)[:0] + [col.rng.randint(1, n + 2) for _ in range(12 if tier == "quick" else 40)]
-                        + [d for d in range(1, n + 1) if (n % d == 0 or fc.tail % d == 0 or fc.body_size % d == 0)][:20]))
-        for comp in ("plain", "gzip"):
-            path = os.path.join(tmp, "s%s%s" % (fc.spec.suffix, "" if comp == "plain" else ".gz"))
-            with open(path, "wb") as f:
-                f.write(fc.data if comp == "plain" else gz_bytes(fc.data, comp, fc.ebytes, fc.body))
-            lazy = bool(j % 2)
-            whole = check_whole(col, fc, path, comp, lazy, "open")
-            for k in ks:
-                check_chunks(col, fc, path, comp, lazy, "open", k, whole)
-        if col.out_of_time():
-            return
+        ks = set(rng.randint(1, n + 2) for _ in range(10 if tier == "quick" else 40))
+        ks |= set([d for d in range(1, n + 1) if (n % d == 0 or fc.tail % d == 0 or fc.body_size % d == 0)][:16])
+        yield fmt, sizes, fnl, crlf, ("plain", "gzip"), (bool(j % 2),), ("open",), sorted(ks)
+
+
+def _work(args):
+    task, tier, deadline = args
+    if time.time() > deadline:
+        return None
+    import logging
+    logging.disable(logging.WARNING)        # the VCF reader logs a warning per chunk (worker process only)
+    fmt, sizes, fnl, crlf, comps, lazies, vias, ks = task
+    col = Collector("C01", tier, 0, "worker")
+    fc = FileCase(fmt, sizes, fnl, crlf)
+    if isinstance(ks, str):
+        ks = fc.chunk_sizes(ks)
+    with TmpDir() as tmp:
+        complete = run_file(col, tmp, fc, ks, comps, lazies, vias, deadline)
+    return {"evaluations": col.evaluations, "distinct": list(col._distinct), "contracts": col.contract_evaluations,
+            "failures": col.failures, "samples": col.samples[:1], "complete": complete}
+
+
+def _merge(col, r):
+    col.evaluations += r["evaluations"]
+    col._distinct.update(r["distinct"])
+    for k, v in r["contracts"].items():
+        col.contract_evaluations[k] = col.contract_evaluations.get(k, 0) + v
+    for f in r["failures"]:
+        if f["signature"] in col._fail_sigs:
+            for g in col.failures:
+                if g["signature"] == f["signature"]:
+                    g["count"] += f["count"]
+        else:
+            col._fail_sigs.add(f["signature"])
+            col.failures.append(dict(f))
+    if len(col.samples) < 5 and r["samples"] and (len(col._distinct) // 997) >= len(col.samples):
+        col.samples += r["samples"]
 
 
 def run(tier="quick", seed=0):
@@ -308,41 +378,69 @@ def run(tier="quick", seed=0):
                     "exhaustive: format x tuple of per-entry size classes {1,2,5}^n x final newline x line end x compression x "
                     "lazy/eager x min_chunk_size; a case is one (file, open mode, min_chunk_size) read; distinct = distinct such "
                     "triples; non-trivial = file has at least one entry",
-                    budget_s=(55 if tier == "quick" else 560))
-    col.bounds = {"formats": list(ref.FORMATS), "entries": "0..4 (n<=%d: every size tuple over {1,2,5}; above: a fixed list)" % (2 if tier == "quick" else 3),
-                  "min_chunk_size": "quick: divisors / +-1,+2 neighbourhoods of file size, body size, entry sizes, entry offsets, plus 1..4; "
-                                    "thorough: every value 1..size+2 for files of <= 3 entries, neighbourhoods for 4 entries",
-                  "final_newline": [True, False], "line_end": ["LF", "CRLF"], "compression": ["plain", "gzip", "gzip multi-member (subset)"],
-                  "lazy": [False, True, "None on the file-object route"], "route": ["bnp.open(path)", "NpDataclassReader(NumpyFileReader(file object)) (subset)"],
-                  "sampled": "seeded files of 5..12 entries with seeded chunk sizes"}
-    with TmpDir() as tmp:
-        done = True
-        # the sample of larger files first in the quick tier (cheap), the exhaustive plan takes the rest of the budget
-        sampled_larger(col, tmp, tier)
-        for fmt, sizes, fnl, crlf, comps, lazies, vias, all_sizes in plan(tier):
-            fc = FileCase(fmt, sizes, fnl, crlf)
-            if not run_file(col, tmp, fc, tier, comps, lazies, vias, all_sizes):
-                done = False
-                break
-        if not done:
-            col.exhaustive = False
+                    budget_s=(55 if tier == "quick" else 570))
+    workers = max(1, min(8, (os.cpu_count() or 2) // 2))
+    col.bounds = {"formats": list(ref.FORMATS),
+                  "entries": ("0..2: every tuple of size classes {1,2,5}; 3: %r; 4: %r" % ([(1, 2, 5)] + N3_QUICK, N4_QUICK)) if tier == "quick" else
+                             ("0..3: every tuple of size classes {1,2,5}; 4: %r" % (N4_THOROUGH,)),
+                  "min_chunk_size": "quick: 1..4 and divisors / -1,+1,+2 neighbours of file size, header size, body size, entry sizes, entry offsets"
+                                    if tier == "quick" else
+                                    "every value 1..size+2 for files of <= 2 entries and for the 3-entry tuples %r; the quick neighbourhoods for the other files" % (N3_ALLK,),
+                  "final_newline": [True, False], "line_end": ["LF", "CRLF"],
+                  "compression": ["plain", "gzip", "gzip with one member per entry (subset)"],
+                  "lazy": [False, True, "default (file-object route)"] if tier != "quick" else "eager everywhere; lazy on LF files: 0..1 entries, pairs %r, (1,2,5)" % (PAIRS_LAZY_QUICK,),
+                  "route": ["bnp.open(path)", "NpDataclassReader(NumpyFileReader(file object)) on a subset"],
+                  "sampled": "seeded files of 5..12 entries, seeded chunk sizes + divisors of file/body/last-entry size",
+                  "worker_processes": workers}
+    deadline = col.t0 + col.budget_s
+    tasks = list(plan(tier))
+    # the sampled larger files early (they are few), but after the first small files so that the first recorded
+    # failure of a class is a small one
+    tasks[64:64] = list(sampled_tasks(col.rng, tier))
+    args = [(t, tier, deadline) for t in tasks]
+    pool = None
+    try:
+        import multiprocessing
+        pool = multiprocessing.get_context("fork").Pool(workers) if workers > 1 else None
+    except Exception:
+        pool = None
+    try:
+        results = pool.imap(_work, args, chunksize=4) if pool is not None else map(_work, args)
+        for r in results:
+            if r is None:
+                col.exhaustive = False
+                continue
+            if not r["complete"]:
+                col.exhaustive = False
+            _merge(col, r)
+    finally:
+        if pool is not None:
+            pool.terminate()
+            pool.join()
+    if not col.samples and tasks:
+        col.samples.append({"task": list(tasks[0][:4])})
     return col.result()
 
 
 def replay(case):
+    import logging
     col = Collector("C01", "quick", 0, "replay")
     fc = FileCase(case["fmt"], tuple(case["sizes"]), case["final_newline"], case["crlf"])
     comp, lazy, via = case["comp"], case["lazy"], case.get("via", "open")
-    with TmpDir() as tmp:
-        if via == "open":
-            src = os.path.join(tmp, "f%s%s" % (fc.spec.suffix, "" if comp == "plain" else ".gz"))
-            with open(src, "wb") as f:
-                f.write(fc.data if comp == "plain" else gz_bytes(fc.data, comp, fc.ebytes, fc.body))
-        else:
-            src = fc.data if comp == "plain" else gz_bytes(fc.data, comp, fc.ebytes, fc.body)
-        whole = check_whole(col, fc, src, comp, lazy, via)
-        if "min_chunk_size" in case:
-            check_chunks(col, fc, src, comp, lazy, via, case["min_chunk_size"], whole)
+    logging.disable(logging.WARNING)
+    try:
+        with TmpDir() as tmp:
+            if via == "open":
+                src = os.path.join(tmp, "f%s%s" % (fc.spec.suffix, "" if comp == "plain" else ".gz"))
+                with open(src, "wb") as f:
+                    f.write(fc.data if comp == "plain" else gz_bytes(fc.data, comp, fc.ebytes, fc.body))
+            else:
+                src = fc.data if comp == "plain" else gz_bytes(fc.data, comp, fc.ebytes, fc.body)
+            whole, whole_exc = check_whole(col, fc, src, comp, lazy, via)
+            if "min_chunk_size" in case:
+                check_chunks(col, fc, src, comp, lazy, via, case["min_chunk_size"], whole, whole_exc)
+    finally:
+        logging.disable(logging.NOTSET)
     if col.failures:
         return False, "; ".join(f["signature"] + ": " + f["message"] for f in col.failures)
     return True, "ok (file %r)" % (fc.data[:80],)
